@@ -692,12 +692,42 @@ Eval vm_compute in (mismatches tmodel (pair_eqb obs_eqb (pair_eqb Bool.eqb Bool.
         if raised or npred != (2 * tc[0], 2 * tc[0]):
             mism3.append({"test": tc, "raised": raised, "n_pred": npred})
         # direct judgement: every forward in eval mode with gradients off, grad mode restored
-        if any(e == "Forward" and (t or g) for e, t, g in log) or final[1] != tc[2]:
+        if (any(e == "Forward" and (t or g) for e, t, g in log) or final[1] != tc[2]) and not any(w["class"] == "test-run" for w in ctx.witnesses):
             ctx.witness("nn.utils.train.Trainer.test", "test-run", {"batches": tc[0], "model.training before": tc[1], "grad mode before": tc[2]},
                         "every forward in eval mode under no_grad; gradient mode restored",
                         {"trace": [ev_coq(e) for e, _, _ in log], "modes": [(t, g) for _, t, g in log], "final": final})
     ctx.tie("trainer/test trace+modes", "correspondence", len(tcases), sum(1 for tc in tcases if tc[0] >= 1), mism3, exhaustive=True,
             note="Trainer.test over loaders of 0..3 batches x model.training before x gradient mode before")
+
+    # ---- Evaluator.step on a batch of one sample (malformed stream: expected outcome "raises") ----
+    impl = _impl()
+    np_, sg_ = impl.np, impl.synapgrad
+    tm_ = train_mod()
+    prows, pobs = [], []
+    for mode in MODES:
+        for size in (1, 2, 3):
+            c = Case(1, 1, None, mode, True, False, False, False, True, True, ctx.rng)
+            b = c.batch(ctx.rng, size)
+            ev_ = tm_.Evaluator(mode=mode)
+            outs = sg_.Tensor(np_.array([[float(v) for v in r] for r in b["outs"]]))
+            if mode == "binary":
+                outs = outs.squeeze(dim=1)
+            labs = sg_.Tensor(np_.array([[float(v) for v in r] for r in b["labrows"]]) if mode == "categorical" else np_.array([float(v) for v in b["labz"]]))
+            try:
+                ev_.step(labs, outs)
+                raised = None
+            except Exception as ex:
+                raised = type(ex).__name__
+            pobs.append({"mode": mode, "batch_size": size, "raised": raised})
+            prows.append("(%s, %s)" % (batch_coq(b), cb(raised is None)))
+    txt = HEADER + "Definition pcases : list (ebatch * bool) := [%s].\nEval vm_compute in (mismatches eval_step_defined Bool.eqb pcases).\n" % "; ".join(prows)
+    ok, out = ctx.coq_eval("batch_of_one", txt)
+    lists = parse_natlist(out)
+    mism4 = [{"error": out[-400:]}] if (not ok or len(lists) != 1) else [pobs[i] for i in lists[0]]
+    ctx.tie("evaluator/step on a batch of one raises", "correspondence", len(pobs), 3, mism4, exhaustive=True,
+            note="Evaluator.step raises exactly for batches of one sample (squeeze() drops the batch axis): " + json.dumps([o for o in pobs if o["raised"]]))
+    ctx.notes.append("Evaluator.step raises for a batch of ONE sample in every mode (%s); all theorems about metrics assume batches of >= 2 samples "
+                     "when an evaluator is used (State/Trainer.v: eval_step_defined)" % ", ".join(sorted({o["raised"] for o in pobs if o["raised"]})))
 
     # ---- oracle (independent of Coq) ------------------------------------------------------
     verdicts = [(c, r, judge(c, r)) for c, r in zip(cases, results)]
